@@ -16,6 +16,18 @@ def instantiate_namespace(namespace):
     @param[in/out] namespace The namespace whose content will be replaced with
         the instantiated content.
     """
+    # The content of every (nested) namespace is replaced only after the whole
+    # tree has been instantiated, so that a typedef can still find a template
+    # that is declared in a namespace which was visited earlier.
+    pending = []
+    _instantiate_namespace(namespace, pending)
+    for instantiated_namespace, instantiated_content in pending:
+        instantiated_namespace.content = instantiated_content
+    return namespace
+
+
+def _instantiate_namespace(namespace, pending):
+    """Instantiate `namespace` and record its new content in `pending`."""
     instantiated_content = []
     typedef_content = []
 
@@ -77,12 +89,10 @@ def instantiate_namespace(namespace):
                         typedef_inst.new_name))
 
         elif isinstance(element, parser.Namespace):
-            element = instantiate_namespace(element)
+            _instantiate_namespace(element, pending)
             instantiated_content.append(element)
         else:
             instantiated_content.append(element)
 
     instantiated_content.extend(typedef_content)
-    namespace.content = instantiated_content
-
-    return namespace
+    pending.append((namespace, instantiated_content))
